@@ -6,6 +6,7 @@ mod conn;
 mod crdt;
 mod image;
 mod ks;
+mod lin;
 mod parse;
 mod place;
 mod recov;
@@ -66,6 +67,7 @@ fn main() {
         "conn" => conn::main(rest),
         "parse" => parse::main(rest),
         "image" => image::main(rest),
+        "lin" => lin::main(rest),
         "repro" => repro::main(rest),
         m => {
             eprintln!("unknown module {m}");
